@@ -13,10 +13,11 @@ Qed.
 
 Lemma set_indexed_stable : forall ch b fs st c1 st1, tr_set_indexed ch b fs st = Ok (c1, st1) -> t_stable st1 = t_stable st.
 Proof.
-  intros ch b fs st c1 st1 H. unfold tr_set_indexed in H.
-  destruct (alookup ck_eqb (ch, mk_key fs) (t_deps st)) as [prev|].
-  - destruct (required_increment_from (b, t_iters st) prev fs) as [inc|]; cbn in H; [|discriminate]. inversion H; reflexivity.
-  - destruct (forallb (fun it => it =? 0) (t_iters st)); [|discriminate]. inversion H; reflexivity.
+  intros ch b fs st c1 st1 H. unfold tr_set_indexed in H. destruct (key_eqb (mk_key fs) []).
+  - inversion H as [H']. eapply set_voltage_stable; eauto.
+  - unfold tr_set_indexed_nz in H. destruct (alookup ck_eqb (ch, mk_key fs) (t_deps st)) as [prev|].
+    + destruct (required_increment_from (b, t_iters st) prev fs) as [inc|]; cbn in H; [|discriminate]. inversion H; reflexivity.
+    + destruct (forallb (fun it => it =? 0) (t_iters st)); [|discriminate]. inversion H; reflexivity.
 Qed.
 
 Lemma hold_stable : forall vs c0 st cs st', tr_hold_chs c0 vs st = Ok (cs, st') -> t_stable st' = t_stable st.
